@@ -377,6 +377,7 @@ type FnCtx struct {
 	loopOrd       map[ast.Node]int
 	nopanic       bool
 	ieee          bool
+	loopInvPC     map[int][]string // per loop ordinal: the hypotheses its invariants contributed at the loop head
 	warns         []string
 	assumes       map[string]bool
 	lits          map[string]string // go string -> literal const
